@@ -124,6 +124,25 @@ fn c02_api() -> Option<String> {
     None
 }
 
+/// API-level witness for C02: what a failed instruction changed is not undone together with a later step
+fn c02_failed_step() -> Option<String> {
+    let mut xs = xs::boot_safe();
+    xs.set_insn_limit(Some(50_000)).unwrap();
+    xs.set_recording_enabled(true);
+    if !matches!(guard(|| xs.eval("\"a\" 1 +")), Ok(Err(_))) {
+        return Some("`\"a\" 1 +` did not fail".into());
+    }
+    let before = xs::render_stack(&xs);
+    if xs.compile("11").is_err() || xs.next().is_err() || xs.rnext().is_err() {
+        return Some("compile / next / rnext failed".into());
+    }
+    let after = xs::render_stack(&xs);
+    if after != before {
+        return Some(format!("one step forward and one back after a failed `+`: stack [{}], was [{}]", after, before));
+    }
+    None
+}
+
 /// API-level witness for C06 (needs set_stack_limit): a read that cannot deliver its value does not consume input
 fn c06_api() -> Option<String> {
     for word in ["u8", "i16be", "f32", "cstr", "nulbytestr"] {
@@ -166,6 +185,9 @@ pub fn run_for(prop: &str) -> Vec<(String, String)> {
         }
     }
     if prop == "C02" {
+        if let Some(d) = c02_failed_step() {
+            bad.push(("failed-step-keeps-its-own-undo-group".to_string(), d));
+        }
         if let Some(d) = c02_api() {
             bad.push(("reverse-local-and-foreach".to_string(), d));
         }
@@ -174,5 +196,5 @@ pub fn run_for(prop: &str) -> Vec<(String, String)> {
 }
 
 pub fn count_for(prop: &str) -> usize {
-    WITNESSES.iter().filter(|w| w.prop == prop && !w.name.starts_with("placeholder")).count() + OUT_WITNESSES.iter().filter(|w| w.0 == prop).count() + if prop == "C02" || prop == "C06" { 1 } else { 0 }
+    WITNESSES.iter().filter(|w| w.prop == prop && !w.name.starts_with("placeholder")).count() + OUT_WITNESSES.iter().filter(|w| w.0 == prop).count() + if prop == "C02" { 2 } else if prop == "C06" { 1 } else { 0 }
 }
